@@ -291,7 +291,10 @@ func (e *Engine) storePtr(st *State, p *Ptr, v Val) {
 		if old.K != kTerm || v.K != kTerm {
 			panic("field store on non-term cell")
 		}
-		st.cells[p.Cell] = term(e.setPath(old.T, p.Root, p.Path, v.T), old.Typ)
+		// name the updated struct value: nested constructor terms otherwise grow exponentially
+		nv := e.S.Fresh("sv", e.sortOf(old.Typ))
+		st.assume(fmt.Sprintf("(= %s %s)", nv, e.setPath(old.T, p.Root, p.Path, v.T)))
+		st.cells[p.Cell] = term(nv, old.Typ)
 		return
 	}
 	tv := e.asTerm(st, v)
